@@ -1,6 +1,7 @@
 /* C17: lha_crc16_buf is CRC-16/ARC, and piecewise == whole. */
 #include "verif.h"
 #include "ref_crc16.h"
+#include <stdlib.h>
 #include "lib/crc16.c"
 
 #ifndef MAXLEN
@@ -102,4 +103,23 @@ void harness_sweep(void)
 		lha_crc16_buf(&ref, sweepbuf, 1);
 	}
 	WITNESS("sweep");
+}
+
+/* the routine reads exactly buf[0..len): the buffer is an object of exactly len bytes, under CBMC's pointer checks
+ * (a look-ahead load of buf[len] computes the right CRC but touches memory the caller does not own) */
+void harness_exact(void)
+{
+	INPUT(u16, c0); INPUT_ARRAY(u8, data, MAXLEN); INPUT(u32, len);
+	uint8_t *b;
+	uint16_t c = c0;
+	unsigned i;
+	ASSUME(len <= MAXLEN);
+	b = malloc(len);
+	ASSUME(b != NULL || len == 0);
+	for (i = 0; i < MAXLEN; ++i) if (i < len) b[i] = data[i];
+	lha_crc16_buf(&c, b, len);
+	CHECK(c == ref_crc16(c0, data, len), "CRC of a buffer held in an object of exactly its length");
+	if (len == MAXLEN) WITNESS("full length");
+	free(b);
+	WITNESS("exact");
 }
